@@ -69,3 +69,125 @@ Definition xcase_first_bad (c : xcase) : list nat :=
   let obs := ExecRun.run cf g (ExecBase.init g) pins in
   failing (fun ot : ExecRun.obs * presult => shown_ok node_name (snd (fst (fst ot))) (snd ot))
           (combine obs tables).
+
+(* ------------------------------------------------------------------------- *)
+(** * the dispatch table, report by report (independent of ExecGen.v)          *)
+(* ------------------------------------------------------------------------- *)
+
+(** ExecGen.v is REGENERATED from the source, so [xcase_ok] alone follows an
+    edit of the dispatch logic.  [report_rule] is a hand-written statement of
+    what the State / Number Restarts columns must show at the end of a poll for
+    a step whose scheduler report was delivered in that poll (query code OK, no
+    dry run), in terms of observables only: the report, whether the step has a
+    restart command and its restart limit, whether a cancel request has been
+    seen, and the restart count shown before the poll.
+      FINISHED -> FINISHED          RUNNING -> RUNNING
+      FAILED, UNKNOWN -> FAILED     CANCELLED -> CANCELLED
+      TIMEDOUT, restart command and no cancel request:
+          budget left (limit 0 or count < limit) -> count + 1, TIMEDOUT
+                                                    (FAILED if the restart submission failed)
+          budget exhausted                        -> FAILED
+      TIMEDOUT otherwise (no restart command / after a cancel request) -> TIMEDOUT
+      HWFAILURE and the states without a branch: no constraint here. *)
+Definition view : Type := list (ExecBase.State * nat).     (* per instance: (state, restart count) *)
+
+Definition report_rule (a : ExecBase.sattr) (cancelled : bool) (v : ExecBase.State)
+           (before after : ExecBase.State * nat) : bool :=
+  let '(_, rp) := before in
+  let '(sc, rc) := after in
+  let is st := ExecBase.state_eqb sc st in
+  match v with
+  | ExecBase.FINISHED => is ExecBase.FINISHED && Nat.eqb rc rp
+  | ExecBase.RUNNING => is ExecBase.RUNNING && Nat.eqb rc rp
+  | ExecBase.FAILED | ExecBase.UNKNOWN => is ExecBase.FAILED && Nat.eqb rc rp
+  | ExecBase.CANCELLED => is ExecBase.CANCELLED && Nat.eqb rc rp
+  | ExecBase.TIMEDOUT =>
+    if ExecBase.has_restart a && negb cancelled then
+      if Nat.eqb (ExecBase.rlimit a) 0 || Nat.ltb rp (ExecBase.rlimit a)
+      then Nat.eqb rc (S rp) && (is ExecBase.TIMEDOUT || is ExecBase.FAILED)
+      else is ExecBase.FAILED && Nat.eqb rc rp
+    else is ExecBase.TIMEDOUT && Nat.eqb rc rp
+  | _ => true
+  end.
+
+Definition view_dflt : ExecBase.State * nat := (ExecBase.INITIALIZED, 0).
+
+Definition poll_rule (cf : ExecBase.cfg) (g : ExecBase.graph) (cancelled : bool) (p : ExecBase.pin)
+           (before after : view) : bool :=
+  if ExecBase.dry cf || negb (ExecBase.qcode_eqb (ExecBase.qcode p) ExecBase.QOK) then true
+  else forallb (fun xr : nat * option ExecBase.State =>
+                  match snd xr with
+                  | None => true
+                  | Some v => report_rule (ExecBase.attr g (fst xr)) cancelled v
+                                          (nth (fst xr) before view_dflt) (nth (fst xr) after view_dflt)
+                  end) (ExecBase.reports p).
+
+(** all polls: [cancelled] accumulates the cancel requests (cancel_study runs
+    before execute_ready_steps in the same iteration) *)
+Fixpoint polls_rule (cf : ExecBase.cfg) (g : ExecBase.graph) (cancelled : bool) (before : view)
+         (ps : list ExecBase.pin) (views : list view) : bool :=
+  match ps, views with
+  | p :: ps', v :: views' =>
+    let c := cancelled || ExecBase.cancel_req p in
+    poll_rule cf g c p before v && polls_rule cf g c v ps' views'
+  | _, _ => true
+  end.
+
+(** reading the columns back *)
+Definition state_of_name (t : str) : option ExecBase.State :=
+  find (fun v => str_eqb (state_name v) t)
+       [ExecBase.INITIALIZED; ExecBase.PENDING; ExecBase.WAITING; ExecBase.RUNNING; ExecBase.FINISHING;
+        ExecBase.FINISHED; ExecBase.QUEUED; ExecBase.FAILED; ExecBase.INCOMPLETE; ExecBase.HWFAILURE;
+        ExecBase.TIMEDOUT; ExecBase.UNKNOWN; ExecBase.CANCELLED; ExecBase.NOTFOUND; ExecBase.DRYRUN].
+
+Definition undec (t : str) : option nat :=
+  match t with
+  | [] => None
+  | _ => fold_left (fun acc c => match acc with
+                                 | Some n => if N.leb 48 c && N.leb c 57 then Some (10 * n + N.to_nat (c - 48)) else None
+                                 | None => None
+                                 end) t (Some 0)
+  end.
+
+(** the (State, Number Restarts) columns of the table, per instance n0, n1, .. *)
+Definition table_view (n : nat) (parsed : presult) : option view :=
+  match parsed with
+  | PTable t =>
+    let trs := table_rows t (col_len t) in
+    fold_right (fun x acc =>
+                  match acc, find (fun tr => str_eqb (nth 0 tr []) (node_name x)) trs with
+                  | Some l, Some tr =>
+                    match state_of_name (nth 3 tr []), undec (nth 9 tr []) with
+                    | Some st, Some k => Some ((st, k) :: l)
+                    | _, _ => None
+                    end
+                  | _, _ => None
+                  end) (Some []) (seq 0 n)
+  | _ => None
+  end.
+
+Fixpoint all_some {A} (l : list (option A)) : option (list A) :=
+  match l with
+  | [] => Some []
+  | Some a :: l' => match all_some l' with Some r => Some (a :: r) | None => None end
+  | None :: _ => None
+  end.
+
+(** THE REPORT-LEVEL MONITOR on the implementation's tables *)
+Definition xcase_rule_ok (c : xcase) : bool :=
+  let '(cf, g, pins, tables) := c in
+  match all_some (map (table_view (List.length g)) tables) with
+  | Some views => polls_rule cf g false (repeat view_dflt (List.length g)) pins views
+  | None => false
+  end.
+
+(** ... and on the rows of the (regenerated) execution model: the tie between
+    the hand-written rule and ExecGen.v *)
+Definition xcase_model_rule_ok (c : xcase) : bool :=
+  let '(cf, g, pins, _) := c in
+  let views := map (fun o : ExecRun.obs => map (fun r : ExecRun.row => (fst (fst r), snd r)) (snd (fst o)))
+                   (ExecRun.run cf g (ExecBase.init g) pins) in
+  polls_rule cf g false (repeat view_dflt (List.length g)) pins views.
+
+Definition xcase_all_ok (c : xcase) : bool :=
+  xcase_ok c && xcase_rule_ok c && xcase_model_rule_ok c.
